@@ -12,6 +12,7 @@ import (
 	"crypto/sha1"
 	"encoding/json"
 	"fmt"
+	"io"
 	"os"
 	"sort"
 	"strings"
@@ -22,6 +23,7 @@ import (
 
 	"github.com/hashicorp/memberlist"
 	"go.temporal.io/server/api/adminservice/v1"
+	replicationv1 "go.temporal.io/server/api/replication/v1"
 	"go.temporal.io/server/client/history"
 	"go.temporal.io/server/common/channel"
 	"go.temporal.io/server/common/log"
@@ -633,6 +635,126 @@ func vfRoutingTable(res *vrt.Result) (evals, nontrivial int64) {
 	return
 }
 
+// vfForwardedAckTable: the receiving end of the owner-forward path. An acknowledgement that another instance forwarded
+// arrives on the intra-proxy stream (the real intraProxyStreamSender.recvAck loop reads it from a scripted stream:
+// the acknowledgement, a second acknowledgement, end of stream), for every combination of "local stream for the
+// addressed shard" and "what this instance believes about a remote owner". A forwarded acknowledgement is handed to
+// the local stream when one exists; otherwise neither a local stream nor a (permitted) remote owner exists for it -
+// it must not be forwarded a second time - and the only report the forwarding instance can get is the stream ending
+// with an error: the loop must not read on as if the acknowledgement had been delivered.
+func vfForwardedAckTable(res *vrt.Result) (evals, nontrivial int64) {
+	for _, local := range []string{"present", "closed", "absent", "removed-after-first"} {
+		for _, remote := range []string{"owner-with-stream", "owner-unknown-peer", "unknown"} {
+			var localN, remoteN, recvCalls int
+			var retErr error
+			var returned bool
+			var panicked string
+			synctest.Test(vfT, func(t *testing.T) {
+				mc := &config.MemberlistConfig{Enabled: true, NodeName: "n1", ProxyAddresses: map[string]string{"n1": "a1", "n2": "a2", "n3": "a3"}}
+				sm := NewShardManager(mc, config.ShardCountConfig{Mode: config.ShardCountRouting}, encryption.TLSConfig{}, vfNoopLoggers()).(*shardManagerImpl)
+				sm.SetupCallbacks()
+				sm.started = true
+				target := history.ClusterShardID{ClusterID: 2, ShardID: 1}
+				source := history.ClusterShardID{ClusterID: 1, ShardID: 1}
+				ackCh := make(chan RoutedAck, 4)
+				switch local {
+				case "present", "removed-after-first":
+					sm.SetLocalAckChan(source, ackCh)
+				case "closed":
+					close(ackCh)
+					sm.SetLocalAckChan(source, ackCh)
+				}
+				if remote != "unknown" {
+					st := NodeShardState{NodeName: "n2", Shards: map[string]ShardInfo{ClusterShardIDtoShortString(source): {ID: source, Created: time.Now()}}, Updated: time.Now()}
+					b, _ := json.Marshal(st)
+					sm.delegate.MergeRemoteState(b, false)
+				}
+				mgr := sm.GetIntraProxyManager()
+				// the stream the forwarded acknowledgements arrive on comes from n3
+				in := vfNewServerStream(target, source, nil)
+				sender := &intraProxyStreamSender{logger: log.NewNoopLogger(), shardManager: sm, peerNodeName: "n3", targetShardID: target, sourceShardID: source, sourceStreamServer: in}
+				mgr.RegisterSender("n3", target, source, sender)
+				if remote == "owner-with-stream" {
+					cs := &vfClientStream{ctx: context.Background(), md: metadata.MD{}, recvQ: make(chan vfItem, 1), brk: make(chan struct{})}
+					cs.onSend = func(*adminservice.StreamWorkflowReplicationMessagesRequest) error { remoteN++; return nil }
+					mgr.streamsMu.Lock()
+					if mgr.peers["n2"] == nil {
+						mgr.peers["n2"] = &peerState{receivers: map[peerStreamKey]*intraProxyStreamReceiver{}, senders: map[peerStreamKey]*intraProxyStreamSender{}}
+					}
+					mgr.peers["n2"].receivers[peerStreamKey{targetShard: target, sourceShard: source}] = &intraProxyStreamReceiver{logger: log.NewNoopLogger(), shardManager: sm, intraMgr: mgr, peerNodeName: "n2", targetShardID: target, sourceShardID: source, streamClient: cs}
+					mgr.streamsMu.Unlock()
+				}
+				ackReq := func(w int64) *adminservice.StreamWorkflowReplicationMessagesRequest {
+					return &adminservice.StreamWorkflowReplicationMessagesRequest{Attributes: &adminservice.StreamWorkflowReplicationMessagesRequest_SyncReplicationState{SyncReplicationState: &replicationv1.SyncReplicationState{InclusiveLowWatermark: w}}}
+				}
+				shutdown := channel.NewShutdownOnce()
+				done := make(chan struct{})
+				go func() {
+					defer close(done)
+					defer func() {
+						if p := recover(); p != nil {
+							panicked = fmt.Sprint(p)
+						}
+					}()
+					retErr = sender.recvAck(shutdown)
+					returned = true
+				}()
+				in.recvQ <- vfItem{req: ackReq(7)}
+				synctest.Wait()
+				if local == "removed-after-first" {
+					sm.RemoveLocalAckChan(source, ackCh)
+				}
+				in.recvQ <- vfItem{req: ackReq(9)}
+				synctest.Wait()
+				in.recvQ <- vfItem{err: io.EOF}
+				synctest.Wait()
+				select {
+				case <-done:
+				default:
+				}
+				if local != "closed" {
+					localN = len(ackCh)
+				}
+				recvCalls = in.recvCalls
+				in.cancel()
+				synctest.Wait()
+			})
+			evals++
+			tc := map[string]string{"local": local, "remote": remote}
+			replay := map[string]any{"part": "TestVerifC09", "forwarded_ack_case": tc}
+			where := fmt.Sprintf("forwarded acknowledgements 7 and 9, then end of stream, arrive at an instance with local stream %q and remote owner %q", local, remote)
+			if panicked != "" {
+				res.Violate("forwarded-ack/panic", where+": "+panicked, replay)
+				continue
+			}
+			if !returned {
+				res.Violate("forwarded-ack/loop-does-not-end", where+": the receive loop has not returned after the stream ended", replay)
+				continue
+			}
+			if remoteN != 0 {
+				res.Violate("forwarded-ack/forwarded-a-second-time", fmt.Sprintf("%s: %d copies were forwarded on to another instance", where, remoteN), replay)
+			}
+			wantLocal := map[string]int{"present": 2, "removed-after-first": 1, "closed": 0, "absent": 0}[local]
+			if localN != wantLocal {
+				res.Violate("forwarded-ack/local-copies", fmt.Sprintf("%s: %d copies reached the local stream, expected %d", where, localN, wantLocal), replay)
+			}
+			if wantLocal == 2 {
+				if retErr != nil {
+					res.Violate("forwarded-ack/delivered-but-stream-ended-with-error", fmt.Sprintf("%s: %v", where, retErr), replay)
+				}
+				continue
+			}
+			nontrivial++
+			// an acknowledgement could not be delivered: the stream ends with an error at that acknowledgement
+			wantRecv := wantLocal + 1
+			if retErr == nil || recvCalls != wantRecv {
+				res.Violate("forwarded-ack/undeliverable-acknowledgement-dropped-silently", fmt.Sprintf("%s: acknowledgement no. %d had neither a local stream nor a permitted remote owner; the loop went on to read %d messages in all and ended with error %v (it must end with an error right there: that is the only report the forwarding instance gets)", where, wantLocal+1, recvCalls, retErr), replay)
+			}
+		}
+	}
+	return
+}
+
 // vfRoutingHistories: the routing clause over histories instead of single states. One instance (n1, no local
 // stream for the shard) with intra-proxy streams towards n2 and n3; every sequence (depth <= 4, thorough 5) of
 // ownership events as n1 sees them - a peer's state snapshot that claims the shard, one that no longer claims it,
@@ -794,6 +916,7 @@ func TestVerifC09(t *testing.T) {
 			}
 		} else {
 			vfRoutingTable(res)
+			vfForwardedAckTable(res)
 			vfRoutingHistories(res, 4)
 		}
 		return
@@ -902,6 +1025,9 @@ func TestVerifC09(t *testing.T) {
 		summary = append(summary, fmt.Sprintf("%+v: %d states, depth %d", cfg, len(seen), depth))
 	}
 	rEvals, rNon := vfRoutingTable(res)
+	fEvals, fNon := vfForwardedAckTable(res)
+	res.Set("forwarded_ack_cases", fEvals)
+	res.Set("forwarded_ack_cases_undeliverable", fNon)
 	hDepth := 4
 	if vrt.Thorough() {
 		hDepth = 5
@@ -916,7 +1042,7 @@ func TestVerifC09(t *testing.T) {
 	res.Set("routing_table_cases", rEvals)
 	res.Set("routing_table_cases_undelivered_or_inconsistent", rNon)
 	res.Set("exhaustive", exhaustive)
-	res.Set("explanation", "convergence: every transition calls the real RegisterShard / UnregisterShard / shardDelegate.NotifyMsg / MergeRemoteState / LocalState / shardEventDelegate.NotifyLeave of 2-3 real shardManagerImpl instances; announcements, state snapshots and leave notifications are in-flight objects the explorer delivers in every order, at most one duplicate each; from every state everything in flight is delivered, live pairs exchange fresh state, and the ownership oracle is evaluated. routing: every combination of {local stream present, closed-but-registered, absent} x {remote owner with stream, owner's peer known without a stream for this pair, owner's peer with streams in both directions for sibling pairs only (other target / other source), owner without any peer state, unknown, owner without a configured address} x {message, ack with forwarding, ack without} through the real DeliverMessagesToShardOwner / DeliverAckToShardOwner with fake intra-proxy streams; routing histories: every sequence (depth 4, thorough 5) of {a peer's snapshot claims the shard, no longer claims it, a peer leaves} for two peers with live intra-proxy streams, a message and an ack routed after every event: exactly one copy to a current claimant, or reported undelivered when there is none")
+	res.Set("explanation", "convergence: every transition calls the real RegisterShard / UnregisterShard / shardDelegate.NotifyMsg / MergeRemoteState / LocalState / shardEventDelegate.NotifyLeave of 2-3 real shardManagerImpl instances; announcements, state snapshots and leave notifications are in-flight objects the explorer delivers in every order, at most one duplicate each; from every state everything in flight is delivered, live pairs exchange fresh state, and the ownership oracle is evaluated. routing: every combination of {local stream present, closed-but-registered, absent} x {remote owner with stream, owner's peer known without a stream for this pair, owner's peer with streams in both directions for sibling pairs only (other target / other source), owner without any peer state, unknown, owner without a configured address} x {message, ack with forwarding, ack without} through the real DeliverMessagesToShardOwner / DeliverAckToShardOwner with fake intra-proxy streams; routing histories: every sequence (depth 4, thorough 5) of {a peer's snapshot claims the shard, no longer claims it, a peer leaves} for two peers with live intra-proxy streams, a message and an ack routed after every event: exactly one copy to a current claimant, or reported undelivered when there is none; forwarded acknowledgements: the real intraProxyStreamSender.recvAck loop on a scripted stream (two acknowledgements, end of stream) x {local stream present, removed after the first, closed, absent} x {remote owner with a stream, owner without peer state, unknown}: handed to the local stream, never forwarded again, and the stream ends with an error at the first acknowledgement nobody takes")
 	res.Sample(summary)
 	res.Assume("the sending half of an announcement (broadcastShardChange needs a live memberlist) is transcribed: one message per instance listed in the sender's remoteNodeStates, stamped with a strictly increasing clock at broadcast time; memberlist itself (reliable send, push/pull, leave detection) is the environment")
 	res.Assume("one clock for all instances (no skew); a claim (RegisterShard + creating its announcements) is an atomic step; every instance knows every other before the first claim")
